@@ -183,6 +183,20 @@ func (p *C12) Gen(seed uint64, i int, tier string) *scen.Scenario {
 		for k := r.Intn(4); k > 0; k-- {
 			sc.Faults = append(sc.Faults, scen.Fault{W: 4, Attempt: r.Intn(6), Kind: "stall", N: r.Range(1, 4)})
 		}
+		if r.Chance(1, 2) {
+			// the other goroutine's Write is in flight while the cell terminates, and then fails (its diagnostic is
+			// one more call in flight); mostly its first Write, so that it can be under way before the cell starts
+			sc.Faults = append(sc.Faults, scen.Fault{W: 4, Attempt: scen.Pick(r, []int{0, 0, 0, 1, 2}), Kind: "stallerr", N: r.Intn(6)})
+			if r.Bool() {
+				// and a third goroutine on that logger: more calls under way when the cell starts
+				bg2 := scen.Task{ID: 3}
+				for k := r.Range(1, 3); k > 0; k-- {
+					tk++
+					bg2.Ops = append(bg2.Ops, scen.Op{Op: "log", L: 2, Entry: "LogAttrs", Lvl: scen.Pick(r, []int{model.Error, model.Info, model.Always}), Msg: "o" + tok(tk), Tok: tok(tk)})
+				}
+				sc.Tasks = append(sc.Tasks, bg2)
+			}
+		}
 		if r.Chance(1, 3) {
 			// the other goroutine's destination never comes back: its call stays in flight for good, the
 			// terminating call must still do what it has to do
